@@ -41,7 +41,7 @@ from mc.oracles import opc_ref
 from mc.props.c13_lib import NS, NS_A, NS_P, NS_R, RT
 
 ORIENTS = [None, "vert"]
-IDXS = [None, 0, 1, 10]
+IDXS = [None, 0, 1, 4294967295]   # absent, the title idx, a body idx, the largest xsd:unsignedInt (PowerPoint writes it for some placeholders)
 XFRMS = [True, False]
 SZS = [None, "full", "half", "quarter"]
 MASTERS = ["template", "bare"]
